@@ -701,3 +701,60 @@ def r01_6(ctx):
     fx = [v for a, v, pt, kind in an.stores if kind == 'assign' and field_path(a)[1][-1:] == ['fullx']]
     ok = any(is_call(strip_all(v), 'rasterizer::dot2_to_dot16') for v in fx)
     ctx.check(ok, R, 'rasterizer::Rasterizer::add_edge|fullx', b.loc(), 'fullx = dot2_to_dot16(x1)', 'the starting x of an edge is not converted with dot2_to_dot16')
+
+
+AXIS_NAMES = {'x': 'AX', 'y': 'AX', 'x1': 'A1', 'y1': 'A1', 'x2': 'A2', 'y2': 'A2', 'control_x': 'AC', 'control_y': 'AC',
+              'dx': 'DA', 'dy': 'DA', 'ddx': 'DDA', 'ddy': 'DDA'}
+
+
+def axis_blind(t):
+    """the term with every per-axis field name replaced by an axis-neutral one (call sites erased)"""
+    t = nosite(t)
+    def rec(x):
+        if not isinstance(x, tuple):
+            return x
+        if x and x[0] == 'field' and x[2] in AXIS_NAMES:
+            return ('field', rec(x[1]), AXIS_NAMES[x[2]]) + tuple(x[3:])
+        return tuple(rec(y) for y in x)
+    return rec(t)
+
+
+def axes_used(t):
+    s = set()
+    for x in subterms(t):
+        if x[0] == 'field' and x[2] in AXIS_NAMES:
+            s.add('x' if 'x' in x[2] else 'y')
+    return s
+
+
+def r08_5(ctx):
+    """axis twins: the x and y halves of the curve set-up are the same function of their own axis"""
+    R = 'R08.5'
+    b = ctx.body('raqote::rasterizer::compute_curve_steps', R)
+    an = ctx.an(b)
+    key = 'rasterizer::compute_curve_steps'
+    vals = {}
+    for d in an.defs:
+        nm = b.locals[d.local].get('name')
+        if nm in ('dx', 'dy') and d.kind == 'assign' and not d.partial:
+            vals[nm] = an.def_term(d)
+    ok = 'dx' in vals and 'dy' in vals and axis_blind(vals['dx']) == axis_blind(vals['dy']) and axes_used(vals['dx']) == {'x'} and axes_used(vals['dy']) == {'y'}
+    ctx.check(ok, R, key + '|dx/dy twins', b.loc(), 'dx and dy are the same expression of their own axis',
+              'in compute_curve_steps dx = %s and dy = %s are not the same function of their own axis (a field of the other axis slipped in): the subdivision count of some curves is far too small' % (fmt(b, vals.get('dx', ('unknown', '?'))), fmt(b, vals.get('dy', ('unknown', '?')))))
+    cs = [ct for bi, d, ct in calls_in(ctx, b) if d == 'raqote::rasterizer::diff_to_shift']
+    ok = len(cs) == 1 and all(is_call(a, 'rasterizer::dot2_to_dot6') for a in cs[0][2]) and cs[0][2][0][2][0] == vals.get('dx') and cs[0][2][1][2][0] == vals.get('dy')
+    ctx.check(ok, R, key + '|diff_to_shift(dx, dy)', b.loc(), 'shift = diff_to_shift(dot6(dx), dot6(dy))', 'compute_curve_steps does not pass (dx, dy) in that order to diff_to_shift')
+    # add_edge: the stores to e.dx/e.dy and e.ddx/e.ddy made first on the curve path
+    ab = ctx.body(RAS + 'add_edge', R)
+    aan = ctx.an(ab)
+    first = {}
+    for a, v, pt, kind in aan.stores:
+        if kind != 'assign':
+            continue
+        nm = field_path(a)[1][-1:]
+        if nm and nm[0] in ('dx', 'dy', 'ddx', 'ddy') and nm[0] not in first:
+            first[nm[0]] = v
+    for px, py in (('dx', 'dy'), ('ddx', 'ddy')):
+        ok = px in first and py in first and axis_blind(first[px]) == axis_blind(first[py]) and axes_used(first[px]) <= {'x'} and axes_used(first[py]) <= {'y'} and axes_used(first[px]) and axes_used(first[py])
+        ctx.check(ok, R, 'rasterizer::Rasterizer::add_edge|%s/%s twins' % (px, py), ab.loc(), 'e.%s and e.%s are the same expression of their own axis' % (px, py),
+                  'in add_edge the forward-difference coefficient e.%s = %s and e.%s = %s are not the same function of their own axis' % (px, fmt(ab, first.get(px, ('unknown', '?')))[:120], py, fmt(ab, first.get(py, ('unknown', '?')))[:120]))
